@@ -151,8 +151,10 @@ type cgRun struct {
 	hasOut bool
 }
 
-func runCodegen(bin, dir, doc string, ignore *string, mode string) cgRun {
-	_ = os.Remove(filepath.Join(dir, "typedef_output.go"))
+func runCodegen(bin, dir, doc string, ignore *string, mode string, keepOld bool) cgRun {
+	if !keepOld {
+		_ = os.Remove(filepath.Join(dir, "typedef_output.go"))
+	}
 	if err := os.WriteFile(filepath.Join(dir, "schema_input.yaml"), []byte(doc), 0o644); err != nil {
 		return cgRun{exit: -2, stderr: err.Error()}
 	}
@@ -222,12 +224,18 @@ func (codegenEngine) Run(t *testing.T, batch string, tape *rt.Tape, runIdx uint6
 		name   string
 		ignore *string
 	}{{"with-ignore-argument", ignoreName}, {"without-ignore-argument", nil}}
+	if tape.Choose("cg.formorder", 2) == 1 {
+		forms[0], forms[1] = forms[1], forms[0]
+	}
+	// go generate re-runs the generator in a directory that still holds the previous output (possibly a longer
+	// one, written for other arguments): in half of the trials the file is left in place between executions
+	keepOld := tape.Choose("cg.keepold", 2) == 1
 	modes := []string{"natural", fmt.Sprintf("random:%d", 1+tape.Choose("cg.perm", 1<<30)), fmt.Sprintf("random:%d", 1+tape.Choose("cg.perm", 1<<30)), fmt.Sprintf("random:%d", 1+tape.Choose("cg.perm", 1<<30)), "reverse", "runtime"}
 	execs := 0
 	for _, f := range forms {
 		var base cgRun
 		for mi, m := range modes {
-			r := runCodegen(bin, dir, doc, f.ignore, m)
+			r := runCodegen(bin, dir, doc, f.ignore, m, keepOld)
 			execs++
 			if r.exit < -1 {
 				return RunRecord{Outcome: "infra", Reason: "cannot run the generator: " + r.stderr}
